@@ -26,6 +26,12 @@ class _Break(Exception):
     pass
 
 
+class Ref:
+    """A parameter that designates a variable of the caller (reference, or pointer obtained with &)."""
+    def __init__(self, env, d):
+        self.env, self.d = env, d
+
+
 def c_upper(c):
     return c - 32 if 97 <= c <= 122 else c
 
@@ -35,9 +41,25 @@ def c_lower(c):
 
 
 class StrFolder:
-    def __init__(self, prog, fn):
+    def __init__(self, prog, fn, char_hook=None):
         self.prog = prog
         self.fn = fn
+        self.char_hook = char_hook      # node -> character value, for "the current character" expressions
+
+    @staticmethod
+    def _get(env, d, default=None):
+        v = env.get(d, default)
+        while isinstance(v, Ref):
+            v = v.env.get(v.d, default)
+        return v
+
+    @staticmethod
+    def _set(env, d, val):
+        cur = env.get(d)
+        if isinstance(cur, Ref):
+            StrFolder._set(cur.env, cur.d, val)
+        else:
+            env[d] = val
 
     # values: int (characters, integers, bools) or str (byte strings as latin-1 str) or list (vector<char>)
     def run_function(self, f, args, depth=0):
@@ -144,6 +166,10 @@ class StrFolder:
         n = strip(e)
         if n is None:
             raise Unfoldable("null")
+        if self.char_hook is not None:
+            hv = self.char_hook(f, n, env)
+            if hv is not None:
+                return hv
         k = n.get("k")
         v = folded(n)
         if v is not None and k not in ("DeclRefExpr",):
@@ -162,7 +188,7 @@ class StrFolder:
             return n.get("s", "")
         if k == "DeclRefExpr":
             if n["d"] in env:
-                return env[n["d"]]
+                return self._get(env, n["d"])
             if v is not None:
                 return v
             # static const char[] / global constants
@@ -191,8 +217,8 @@ class StrFolder:
                 return int(bool(self._expr(f, n["c"][0], env, depth)) or bool(self._expr(f, n["c"][1], env, depth)))
             if op == "=":
                 d = self._lvalue(f, n["c"][0], env)
-                env[d] = self._expr(f, n["c"][1], env, depth)
-                return env[d]
+                self._set(env, d, self._expr(f, n["c"][1], env, depth))
+                return self._get(env, d)
             a = self._expr(f, n["c"][0], env, depth)
             b = self._expr(f, n["c"][1], env, depth)
             try:
@@ -233,10 +259,10 @@ class StrFolder:
                 d = self._lvalue(f, ops[0], env)
                 b = self._expr(f, ops[1], env, depth)
                 if op == "=":
-                    env[d] = b
+                    self._set(env, d, b)
                 else:
-                    env[d] = self._append(env.get(d, ""), b)
-                return env[d]
+                    self._set(env, d, self._append(self._get(env, d, ""), b))
+                return self._get(env, d)
             if op in ("==", "!=") and len(ops) == 2:
                 a, b = self._expr(f, ops[0], env, depth), self._expr(f, ops[1], env, depth)
                 return int((a == b) == (op == "=="))
@@ -251,20 +277,20 @@ class StrFolder:
                 vals = [self._expr(f, a, env, depth) for a in args]
                 if nm == "assign":
                     if len(vals) == 1:
-                        env[d] = vals[0]
+                        self._set(env, d, vals[0])
                     elif len(vals) == 2 and isinstance(vals[0], int) and not isinstance(vals[1], (str, list)):
-                        env[d] = chr(vals[1] & 0xFF) * vals[0]
+                        self._set(env, d, chr(vals[1] & 0xFF) * vals[0])
                     else:
                         raise Unfoldable("assign form")
                 elif nm == "append" and len(vals) == 2 and isinstance(vals[0], int) and isinstance(vals[1], int):
-                    env[d] = self._append(env.get(d, ""), chr(vals[1] & 0xFF) * vals[0])
+                    self._set(env, d, self._append(self._get(env, d, ""), chr(vals[1] & 0xFF) * vals[0]))
                 else:
-                    env[d] = self._append(env.get(d, ""), vals[0])
-                return env[d]
+                    self._set(env, d, self._append(self._get(env, d, ""), vals[0]))
+                return self._get(env, d)
             if nm in ("reserve", "clear"):
                 if nm == "clear":
                     d = self._lvalue(f, obj, env)
-                    env[d] = "" if isinstance(env.get(d, ""), str) else []
+                    self._set(env, d, "" if isinstance(self._get(env, d, ""), str) else [])
                 return 0
             if nm in ("c_str", "data", "str"):
                 return self._expr(f, obj, env, depth)
@@ -287,7 +313,19 @@ class StrFolder:
                             "ispunct": 33 <= c < 127 and not chr(c).isalnum()}[q])
             ts = self.prog.call_targets(f, n)
             if len(ts) == 1:
-                vals = [self._expr(f, a, env, depth) for a in args]
+                vals = []
+                for p_, a in zip(ts[0].params, args):
+                    pt = (p_.get("t") or "")
+                    sa = strip_all(a)
+                    if sa is not None and sa.get("k") == "UnaryOperator" and sa.get("op") == "&" and \
+                            (strip_all(sa["c"][0]) or {}).get("k") == "DeclRefExpr":
+                        vals.append(Ref(env, strip_all(sa["c"][0])["d"]))      # &accumulator
+                    elif pt.rstrip().endswith("&") and "const" not in pt and sa is not None and sa.get("k") == "DeclRefExpr":
+                        vals.append(Ref(env, sa["d"]))                         # accumulator by reference
+                    elif sa is not None and sa.get("k") == "DeclRefExpr" and isinstance(env.get(sa["d"]), Ref):
+                        vals.append(env[sa["d"]])                              # an out-parameter handed on
+                    else:
+                        vals.append(self._expr(f, a, env, depth))
                 return self.run_function(ts[0], vals, depth + 1)
             raise Unfoldable("call %s" % q)
         if k == "ExprWithCleanups" and n.get("c"):
